@@ -79,11 +79,14 @@ Definition len7 (v : Z) : Z :=
   if v <? 128 then 1 else if v <? 16384 then 2 else if v <? 2097152 then 3
   else if v <? 268435456 then 4 else 5.
 
+(* the byte-level loops of the packed-int routines in arithmetic form: x & 0x7f = x mod 128,
+   x >> 7 = x / 128, x | 0x80 = x + 128 for x < 128, r |= g << s is r + g * 2^s when r < 2^s
+   (the bit-level form is what Leaf/ translates from the source and ties to these) *)
 Fixpoint enc7_loop (fuel : nat) (val : Z) : list Z :=
   match fuel with
   | O => []
-  | S f => if 127 <? val then Z.lor (Z.land val 127) 128 :: enc7_loop f (Z.shiftr val 7)
-           else [Z.land val 127]
+  | S f => if 127 <? val then (val mod 128 + 128) :: enc7_loop f (val / 128)
+           else [val]
   end.
 Definition enc7 (v : Z) : list Z := enc7_loop 5 (to_u32 v).
 
@@ -131,8 +134,8 @@ Fixpoint read7_loop (fuel : nat) (result shl : Z) (s : ist) : res (Z * ist) :=
     match s with
     | [] => Err SBDF_ERROR_IO
     | uch :: s' =>
-      let result' := Z.lor result (to_u32 (Z.shiftl (Z.land uch 127) shl)) in
-      if Z.land uch 128 =? 128
+      let result' := result + to_u32 ((uch mod 128) * 2 ^ shl) in
+      if 128 <=? uch
       then (if 28 <? shl + 7 then Err SBDF_ERROR_INVALID_SIZE else read7_loop f result' (shl + 7) s')
       else Ok (to_i32 result', s')
     end
